@@ -40,6 +40,9 @@ Lemma lock_published_spec : forall v, lock_published v = v.        Proof. reflex
 Lemma lwm_step_le : forall m v, (if lwm_update m v then lwm_assign v else m) <= m /\ (if lwm_update m v then lwm_assign v else m) <= v.
 Proof. intros m v. unfold lwm_update, lwm_assign. destruct (Z.gtb_spec m v); lia. Qed.
 Lemma lwm_ret_spec : forall m, lwm_ret m = m.                      Proof. reflexivity. Qed.
+(* reclaim_start_from samples low_water_mark() itself, on every call; keep_reclaim passes only (index, tasks) *)
+Lemma lwm_sample_spec : forall m, lwm_sample m = m.                Proof. reflexivity. Qed.
+Lemma reclaim_from_spec : forall i, reclaim_from i = i.            Proof. reflexivity. Qed.
 Lemma not_yet_spec : forall e l, not_yet_reclaimable e l = false -> e <= l.
 Proof. intros e l. unfold not_yet_reclaimable. destruct (Z.gtb_spec e l); [discriminate | lia]. Qed.
 Lemma need_consume_spec : forall i n, need_consume (Z.of_nat i) (Z.of_nat n) = true -> i = n.
@@ -411,7 +414,7 @@ Proof.
   all: try (rewrite Hcp in Hc; discriminate Hc).
   all: try (destruct (sleep_needed _); discriminate Hc).
   all: try ((* a reclaimer call *) injection Hc as <- <-; eapply (a_s2 _ I); eauto; fail).
-  (* end of the scan *) injection Hc as <- <-. rewrite lwm_ret_spec. eapply (a_s1 _ I); eauto.
+  (* end of the scan *) injection Hc as <- <-. rewrite lwm_sample_spec, lwm_ret_spec. eapply (a_s1 _ I); eauto.
   apply blk_open_bound in O. apply nth_error_None in Heqo. lia.
 Qed.
 
